@@ -56,6 +56,45 @@ def jsonl(text):
     return out
 
 
+AREA = "beyond the statement of C13"
+
+
+def split_drift(rej):
+    """Reasons that start with DRIFT: concern behaviour the property does not state (parse_max_depth, the policy for
+    repeated names, indexing.rs): they are reported with ctx.drift and never change the exit code."""
+    return [(i, w) for i, w in rej if not w.startswith("DRIFT:")], [(i, w) for i, w in rej if w.startswith("DRIFT:")]
+
+
+def report_drifts(ctx, lines, soft, what):
+    groups = {}
+    for i, w in soft:
+        groups.setdefault(w, []).append(i)
+    for w, idx in groups.items():
+        rec = json.loads(lines[idx[0]])
+        txt = text_of(rec.get("in", rec.get("src", rec.get("out", []))))
+        ctx.drift(AREA, "%s: %s; e.g. %s (%d record(s))" % (what, w[7:], json.dumps(txt[:120], ensure_ascii=False), len(idx)),
+                  {"kind": "json-docs", "texts": [json.loads(lines[i]).get("in", json.loads(lines[i]).get("src", [])) for i in idx[:20]], "why": w})
+
+
+def judge_texts(ctx, jb, limit, texts, wid="c13j"):
+    """Two-level judging of value mismatches on texts with repeated names: the real code parses them again and TLC
+    judges the records against the property (Trace_Json8259): returns (lines, hard, soft)."""
+    wd = vlib.workdir("C13")
+    data = "\n".join(json.dumps({"s": [ord(c) for c in t]}) for t in texts) + "\n"
+    p = run_bin(jb, ["log", str(limit)], stdin_data=data)
+    if p.returncode != 0:
+        raise ToolError("json log failed: " + p.stderr[-500:])
+    path = os.path.join(wd, "judge.ndjson")
+    with open(path, "w") as f:
+        f.write("\n".join(l for l in p.stdout.split("\n") if '"k":"doc"' in l) + "\n")
+    try:
+        lines, rej, _ = trace_validate(path, wid=wid)
+    finally:
+        os.remove(path)
+    hard, soft = split_drift(rej)
+    return lines, hard, soft
+
+
 def text_of(cps):
     return "".join(chr(c) if c < 0xD800 or c > 0xDFFF else "�" for c in cps)
 
@@ -329,6 +368,24 @@ def run(tier, replay):
                      calls=s["evaluations"], mismatches=s["mismatches"])
         if s["mismatches"]:
             all_first.append((name, cfg, s))
+        if s.get("pm_mismatches"):
+            m0 = s["pm_first"][0]
+            ctx.drift(AREA, "%s: %s on %s: %s (%d call(s)); the property names Value::parse only" % (
+                name, m0["call"], json.dumps(m0["text"], ensure_ascii=False), m0["problem"], s["pm_mismatches"]),
+                {"kind": "json-enum", "space": name, "texts": [m["cps"] for m in s["pm_first"]], "first": s["pm_first"]})
+        if s.get("dup_value_mismatches"):
+            texts = []
+            for m in s["dup_first"]:
+                if m["text"] not in texts:
+                    texts.append(m["text"])
+            jl, hard, soft = judge_texts(ctx, jb, limit, texts)
+            if hard:
+                r0 = json.loads(jl[hard[0][0]])
+                ctx.violation("%s: text with repeated names %s: %s (%d such call(s) in the space)" % (
+                    name, json.dumps(text_of(r0["in"]), ensure_ascii=False), hard[0][1], s["dup_value_mismatches"]),
+                    {"kind": "json-enum", "space": name, "texts": [json.loads(jl[i])["in"] for i, _ in hard], "first": s["dup_first"][:5]})
+            else:
+                report_drifts(ctx, jl, soft or [(0, "DRIFT: repeated names: value differs from keep-all")], name)
     for name, cfg, s in all_first:
         first = s["first"]
         texts = []
@@ -370,6 +427,11 @@ def run(tier, replay):
     for l in ser_lines[5:6]:
         rec = json.loads(l)
         ctx.sample({"serialised": text_of(rec["out"])[:200], "indent": rec["ind"], "reparsed_equal": rec["re"]})
+    doc_bad_all, ser_bad_all = set(i for i, _ in doc_rej), set(i for i, _ in ser_rej)
+    doc_rej, doc_soft = split_drift(doc_rej)
+    ser_rej, ser_soft = split_drift(ser_rej)
+    report_drifts(ctx, doc_lines, doc_soft, "documents")
+    report_drifts(ctx, ser_lines, ser_soft, "serialiser")
     chain_rej = [(i, why) for i, why in doc_rej if '"k":"ser"' in doc_lines[i]]
     doc_only_rej = [(i, why) for i, why in doc_rej if '"k":"ser"' not in doc_lines[i]]
     if chain_rej:
@@ -399,7 +461,7 @@ def run(tier, replay):
             why0, json.dumps(text_of(r0["out"])[:160], ensure_ascii=False), r0["ind"], len(recs)),
             {"kind": "json-ser", "seed": ctx.seed, "n": n_ser, "per": per, "every": every, "records": [r for r, _ in recs][:5],
              "why": [w for _, w in recs][:50]})
-    elif ser_sum["reparse_not_equal"]:
+    elif ser_sum["reparse_not_equal"] and not ser_soft:
         raise ToolError("harness saw %d outputs that do not re-parse to the value but logged none" % ser_sum["reparse_not_equal"])
 
     # extension beyond the property text (DESIGN section 6): indexing.rs against Json8259 Part 5.  Reported in the
@@ -409,12 +471,11 @@ def run(tier, replay):
     ctx.add_part("extension: indexing (get/get_mut/Index/IndexMut), not gating", records=len(idx_lines),
                  not_explained_by_model=[{"record": json.loads(idx_lines[i]), "op": why} for i, why in idx_rej[:5]],
                  not_explained_count=len(idx_rej))
-    if idx_rej:
-        vlib.log("NOTE (not part of C13): %d indexing record(s) differ from the model of indexing.rs, first: %s" % (len(idx_rej), idx_rej[0][1]))
+    report_drifts(ctx, idx_lines, [(i, w if w.startswith("DRIFT:") else "DRIFT: " + w) for i, w in idx_rej], "indexing")
     os.remove(idx_path)
 
     # 5. self-test of the binding (tool error if the machinery does not notice a corruption)
-    selftest(ctx, jb, limit, side[0][2], side[0][3]["mismatches"], doc_lines, set(i for i, _ in doc_rej), ser_lines, set(i for i, _ in ser_rej), wd)
+    selftest(ctx, jb, limit, side[0][2], side[0][3]["mismatches"], doc_lines, doc_bad_all, ser_lines, ser_bad_all, wd)
 
     os.remove(docs_path)
     os.remove(ser_path)
@@ -463,7 +524,7 @@ def selftest(ctx, jb, limit, r_num, base_mismatches, doc_lines, doc_bad, ser_lin
         _, rej, runs = trace_validate(path, wid="c13st")
     finally:
         os.remove(path)
-    got = [i for i, _ in rej]
+    got = [i for i, w in rej if not w.startswith("DRIFT:")]
     if got != [k, len(docs) + j]:
         raise ToolError("self-test: corrupted trace: TLC rejected %s, expected %s" % (got, [k, len(docs) + j]))
     ctx.add_part("self-test of the binding", corrupted_vectors_detected=2, corrupted_trace_records_detected=2)
@@ -500,6 +561,8 @@ def do_replay(ctx, jb, limit, path):
     ctx.cov["traces_validated_against_impl"] += len(lines)
     ctx.cov["distinct_nontrivial"] += len(set(lines))
     ctx.cov["rule"] = "replay of a stored case: every stored text / the stored generator seed, re-executed and validated by TLC"
+    rej, soft = split_drift(rej)
+    report_drifts(ctx, lines, soft, "replay")
     for i, why in rej[:20]:
         rec = json.loads(lines[i])
         txt = text_of(rec.get("in", rec.get("out")))
